@@ -45,7 +45,7 @@ def tagPool : List Bytes := [s "<b>", s "</b>", s "<br/>", s "<a href=\"x\">", s
 def entityPool : List (Bytes × Bytes) := [(s "amp", s "&"), (s "lt", s "<"), (s "#35", s "#"), (s "#x41", s "A"), (s "copy", s "©"), (s "quot", s "\""), (s "auml", s "ä"),
   (s "#x01F600", s "😀"), (s "#0128512", s "😀"), (s "#x10FFFD", [0xF4, 0x8F, 0xBF, 0xBD]), (s "#0000097", s "a"), (s "#X000061", s "a")]
 def infoPool : List Bytes := [[], s "go", s "c++", s "x-y", s "é"]
-def codeLinePool : List Bytes := [s "x", s "  ind", s "a < b && c", s "```", s "~~~", s "*not em*", s "", s "# h", s "- l", s "> q", s "    deep", s "<div>", s "\\e", s "``` ", s "~~~~  ", s "````", s "``` x", s "\tt", s "a\tb"]
+def codeLinePool : List Bytes := [s "x", s "  ind", s "a < b && c", s "```", s "~~~", s "*not em*", s "", s "# h", s "- l", s "> q", s "    deep", s "<div>", s "\\e", s "``` ", s "~~~~  ", s "````", s "``` x", s "\tt", s "a\tb", s " ````", s "   ~~~~", s "  ```"]
 def htmlLinePool : List Bytes := [s "<div>", s "</div>", s "<p class=\"c\">", s "*x*", s "text", s "<table><tr>", s "  <td>"]
 def labelPool : List Bytes := [s "l1", s "Lab 2", s "ß", s "x*y"]
 
